@@ -37,14 +37,14 @@ func EditOps(max int) *rapid.Generator[[]EditOp] {
 		var out []EditOp
 		for i := 0; i < n; i++ {
 			e := EditOp{Side: rapid.IntRange(0, 1).Draw(t, "side"), Node: rapid.IntRange(0, 40).Draw(t, "node"),
-				Op: rapid.SampledFrom([]string{"add", "delete", "clear", "setdate", "setdate", "setplace", "setplace", "readd"}).Draw(t, "op")}
+				Op: rapid.SampledFrom([]string{"add", "delete", "clear", "setdate", "setdate", "setplace", "setplace", "readd", "swapdate", "swapdate", "swapplace"}).Draw(t, "op")}
 			switch e.Op {
 			case "add":
 				e.Tag = rapid.SampledFrom([]string{"NOTE", "DATE", "PLAC", "RESI", "EVEN", "_X"}).Draw(t, "tag")
 				e.Value = rapid.SampledFrom([]string{"", "x", "3 Sep 1943", "Sydney", "1950"}).Draw(t, "value")
-			case "setdate":
+			case "setdate", "swapdate":
 				e.Value = rapid.SampledFrom(EqDateValues).Draw(t, "date")
-			case "setplace":
+			case "setplace", "swapplace":
 				e.Value = rapid.SampledFrom([]string{"Sydney", "Leeds", "York, England", ""}).Draw(t, "place")
 			}
 			out = append(out, e)
@@ -110,6 +110,24 @@ func (e EditOp) Apply(left, right gedcom.Node) (changed bool) {
 		return replace("DATE", e.Value)
 	case "setplace":
 		return replace("PLAC", e.Value)
+	case "swapdate", "swapplace":
+		// SetNodes with the same number of children: one DATE (PLAC) child replaced by a new
+		// node with another value, every other child kept as it is
+		tag := map[string]string{"swapdate": "DATE", "swapplace": "PLAC"}[e.Op]
+		var next gedcom.Nodes
+		swapped := false
+		for _, c := range n.Nodes() {
+			if !swapped && c.Tag().Tag() == tag && c.Value() != e.Value {
+				next = append(next, gedcom.NewNode(c.Tag(), e.Value, ""))
+				swapped = true
+			} else {
+				next = append(next, c)
+			}
+		}
+		if swapped {
+			n.SetNodes(next)
+		}
+		return swapped
 	case "readd":
 		// the same children again, as new node objects, through SetNodes
 		var fresh gedcom.Nodes
